@@ -113,10 +113,15 @@ def module_state(m):
 POOL_VALID = [".once\nmov #2, r0\n", ".once\n.end\n", "mov #1, r0\nbr .\n", "a = 5\n.word a, b\nb = a + 2\n", ".ascii /hi/\n.even\nx: .word x\n", ".link 2000\nstart: jmp start\n.blkb 10\n",
               ".repeat 3 { inc r0 }\n", "l1: sob r1, l1\n.word 'a, \"bc\n"]
 POOL_INVALID = ["mov r0\n", ".word undefined_sym\n", ".byte 400\n", "br .+1000\n", "frob\n", ".ascii \"abc\n", "x = \n", ".word 5/0\n", "a: a: nop\n",
-                ".link 1000\n.link 2000\n", "rts #5\n", ".word (1+\n", ".blkb -1\n", ".error boom\n", "a = b\nb = c + 1\n.word a\n"]
+                ".link 1000\n.link 2000\n", "rts #5\n", ".word (1+\n", ".blkb -1\n", ".error boom\n", "a = b\nb = c + 1\n.word a\n",
+                # definitions that depend on themselves (reported with the positions of the symbols on the cycle)
+                "nop\nc1 = c2 + 1\nc2 = c1 * 2\n.word c1\n", "loop = loop\n", "nop\nnop\nq = r + 1\nr = s\ns = q\n", ".blkb n\nn = e - .\ne:\n",
+                ".link b\nb: nop\n", "dup: nop\nnop\ndup: nop\n", "x:: nop\n.extern x\nx:: nop\n"]
 PROBES = ["start: mov #start, r0\n.word late, 'x\nlate = . - start\n.ascii /probe/\n", ".word nosuch\n.byte 300\n", "l: br l\n.even\n.blkw 3\n",
           # per-assembly counters (how often a file was compiled, scope and file numbering) must start afresh
-          ".once\nx: .word x, 5\n1$: br 1$\n", "a: .word 1$\n1$: .word a\nb: .word 1$\n1$: nop\n"]
+          ".once\nx: .word x, 5\n1$: br 1$\n", "a: .word 1$\n1$: .word a\nb: .word 1$\n1$: nop\n",
+          # every kind of report that collects positions while it is built
+          "nop\nnop\nnop\np1 = p2\np2 = p1 + 2\n.word p1\n", "self = self + 1\n", "d2: nop\nd2: nop\n", ".blkb m\nm = f - .\nf:\n"]
 
 
 def run_one(src):
